@@ -293,6 +293,9 @@ inductive FTag
   | footnote (pos : Nat)
   /-- an `ast.Footnote` that is not a child of the list (domain monitor) -/
   | stray
+  /-- a child of the FootnoteList that is no `*ast.Footnote`: the transformer's `footnote.(*ast.Footnote)` (footnote.go:251)
+      panics on it (a Go panic, not a monitor) -/
+  | alien
   deriving DecidableEq, Repr
 
 /-- the children of the FootnoteList at the end of the block phase: the definitions in `Close` order -/
@@ -312,11 +315,12 @@ inductive Mode
   deriving DecidableEq, Repr
 
 /-- the tag of the node `id` met in mode `m`. DOMAIN MONITORS (`stray`; docTreeF answers `value pre`): an `*ast.Footnote`
-    outside the list, a child of the list that is no Footnote, a Footnote / the FootnoteList below a definition. -/
+    outside the list, a Footnote / the FootnoteList below a definition. A child of the list that is no Footnote is `alien`:
+    the type assertion of the AST transformer panics (docTreeF answers `value assert`). -/
 def tagIn (f : FS) (m : Mode) (id : Nat) : FTag :=
   match m with
   | .body => if f.list == some id then .list else if f.isFn id then .stray else .plain
-  | .noteRoot i => if f.isFn id then .footnote i else .stray
+  | .noteRoot i => if f.isFn id then .footnote i else .alien
   | .note => if f.list == some id || f.isFn id then .stray else .plain
 
 def FTag.isList : FTag → Bool
@@ -401,6 +405,7 @@ def blockKindF (tag : FTag) (src : Bytes) (n : Blocks.Node) : Except Panic GM.Ki
   | .list => if n.lines.isEmpty then pure .footnoteList else throw .pre        -- monitor: a FootnoteList has no lines
   | .footnote k => if n.lines.isEmpty then pure (.footnote k) else throw .pre  -- monitor: a Footnote has no lines
   | .stray => throw .pre
+  | .alien => throw .assert                                                   -- `footnote.(*ast.Footnote)` (footnote.go:251)
 
 mutual
 /-- GM.Convert.docTree over the tagged tree: walkBlock (post-order, the FootnoteList where the block phase left it) with
